@@ -171,8 +171,42 @@ def run_case(case, rec):
     rec.sample({**X.show(case), "wrt": V})
 
 
+def run_handwritten(rec, name, build, pt, value, partials):
+    from optyx.core import autodiff as AD
+
+    rec.case({"handwritten": name})
+    cell = "handwritten:" + name
+    show = {"case": name, "point": pt, "expected": partials}
+    for route in ("recursive", "iterative", "compute_jacobian"):
+        old = AD._RECURSION_THRESHOLD
+        try:
+            if route == "iterative":
+                AD._RECURSION_THRESHOLD = 1
+            e, V = build()
+            try:
+                with np.errstate(all="ignore"):
+                    if route == "compute_jacobian":
+                        row = AD.compute_jacobian([e], V)[0]
+                        got = {v.name: _scalar(g.evaluate(dict(pt))) for v, g in zip(V, row)}
+                    else:
+                        got = {v.name: _scalar(AD.gradient(e, v).evaluate(dict(pt))) for v in V}
+            except Exception as ex:
+                rec.violation(f"{route}:raises:{type(ex).__name__}", {"show": show, "error": repr(ex)[:200]})
+                rec.cmp(1, cell)
+                continue
+        finally:
+            AD._RECURSION_THRESHOLD = old
+        for nm, want in partials.items():
+            rec.cmp(1, cell)
+            if not close(got.get(nm, float("nan")), want, RTOL, 10.0)[0]:
+                rec.violation(f"{route}:mismatch", {"show": show, "wrt": nm, "got": got.get(nm), "want": want})
+
+
 def run(ctx, rec):
     rng = ctx.rng
+    for i, (name, build, pt, value, partials) in enumerate(X.handwritten_cases()):
+        if ctx.mine(i):
+            run_handwritten(rec, name, build, pt, value, partials)
     k = 0
     for case in X.directed_cases(rng, ctx.mine, vrels=["superset", "superset_permuted"]):
         run_case(case, rec)
